@@ -4,6 +4,7 @@ import numpy as np
 from skgstat import MetricSpace
 
 from .common import quiet
+from .common import guarded
 from . import krig, c07
 
 INFO = dict(
@@ -22,6 +23,7 @@ def same(a, b, scale, tol=1e-7):
     return bool(np.all(np.abs(a[m] - b[m]) <= tol * scale))
 
 
+@guarded
 def check_case(ctx, case):
     targets = np.array(case['targets'], float)
     values = np.array(case['values'], float)
